@@ -20,7 +20,8 @@ ASSUMPTIONS = ["matid.geometry.get_dimensionality is the reference (it is itself
 CASE_TIMEOUT = 600
 BUDGET_S = {"quick": 800, "thorough": 3300}
 worker_init = sbcfam.worker_init
-FAMS = ["crystallite", "vacancy_shell", "vacancy_shell", "defective", "two_crystals", "slab", "crystal", "shared_species_stack"]
+FAMS = ["crystallite", "vacancy_shell", "vacancy_shell", "defective", "two_crystals", "slab", "crystal", "shared_species_stack",
+        "minority_compound", "minority_compound", "minority_compound"]
 
 
 def floors(tier):
@@ -31,9 +32,10 @@ def gen_cases(tier, seed):
     ss = np.random.SeedSequence([seed, 13])
     q = tier == "quick"
     cases = []
-    for k, child in enumerate(ss.spawn(200 if q else 3000)):
-        cases.append({"seed": int(child.generate_state(1)[0]), "max_atoms": 110 if q else 300, "family": FAMS[k % len(FAMS)],
-                      "allow_invalid": False})
+    for k, child in enumerate(ss.spawn(220 if q else 3000)):
+        fam = FAMS[k % len(FAMS)]
+        cases.append({"seed": int(child.generate_state(1)[0]), "max_atoms": (150 if fam == "minority_compound" else 110) if q else 300,
+                      "family": fam, "allow_invalid": False})
     from gen import slabs
     rng = np.random.default_rng([seed, 1313])
     u2, u3 = slabs.c02_cells(), slabs.c03_cells()
